@@ -802,3 +802,74 @@ def snapshot_order(ctx):
             ctx.check(cbb in G, f"{short(R.name)}/input", [site(R, x[1]) for x in post], "the recorded input state is recomputed after the script without guarding the save by an equality with the pre-script state")
         else:
             ctx.bad(f"{short(R.name)}/input", [site(R, x[1]) for x in post], "the recorded input state is computed after the script ran: a change made during the build is recorded as built and the re-run is skipped")
+
+
+@rule("C03.CARDINALITY-OVER-SETS", ["C03"], """the cardinality test of the file-state comparison compares *distinct* listed files with distinct recorded files: both `len()` operands are
+      set/map typed (a file covered by two overlapping resources is counted once on both sides, otherwise the target is never skipped)""", "K5", floor=1)
+def cardinality_over_sets(ctx):
+    for b in file_state_eq_bodies(ctx):
+        lens = [(bb, t) for bb, t in b.calls() if callee_base(t).endswith("::len")]
+        ctx.need(lens, "len() calls in the file-state comparison")
+        cmp_lens = []
+        for blk in b.normal_blocks():
+            for st in blk["stmts"]:
+                rv = st["rv"]
+                if rv["k"] == "binop" and rv["op"] in ("Ne", "Eq"):
+                    for o in origins(b, st["lhs"]["local"]):
+                        if o[0] == "binop":
+                            for side in (o[2], o[3]):
+                                for y in side:
+                                    if y[0] == "call" and y[1].endswith("::len"):
+                                        cmp_lens.append(y[3])
+        ctx.need(len(cmp_lens) >= 2, "the two len() operands of the cardinality comparison")
+        bad = [t for t in cmp_lens if not re.search(r"(HashSet|HashMap|BTreeSet|BTreeMap)::<", callee_decl(t))]
+        ctx.check(not bad, f"{short(b.name)}/len-of-sets", [b.loc()], "the cardinality comparison counts a non-deduplicated collection (" + ", ".join(callee_decl(t)[:60] for t in bad) + "): overlapping resources make the counts differ for ever and the target is rebuilt on every run")
+
+
+@rule("C03.DECODE-LIMIT-COVERS-FILE", ["C03", "C05"], """the size limit of the state decode is the length of the state file itself (not a smaller constant or a minimum): every state zinoma
+      wrote can be read back, whatever its size""", "K5", floor=1)
+def decode_limit_covers_file(ctx):
+    f = ctx.f
+    n = 0
+    for b in f.user_bodies():
+        for bb, t in b.calls():
+            if re.search(r"bincode::(config::)?Options>?::with_limit$|::with_limit$", t["callee"]["base"]) and "bincode" in callee_decl(t):
+                n += 1
+                l = operand_local(t["args"][1]) if len(t["args"]) > 1 else None
+                o = origins(b, l) if l is not None else []
+                direct = any(x[0] == "call" and x[1].endswith("Metadata::len") for x in o)
+                ctx.check(direct and len(o) == 1, f"{short(ctx.r.outer_fn(b).name)}/limit", [site(b, bb)],
+                          "the decode limit is not exactly the file's own length (a cap below the size of a legitimately written state makes it 'corrupted': it is dropped and the target rebuilt on every run)")
+    if n == 0:
+        sl = [(b, bb) for b in f.user_bodies() for bb, t in b.calls() if re.match(r"^bincode::deserialize$", t["callee"]["base"])]
+        ctx.need(sl, "a bincode decode with a limit (or a slice decode)")
+        for (b, bb) in sl:
+            ctx.ok(f"{short(ctx.r.outer_fn(b).name)}/slice", [site(b, bb)], "slice decode: bounded by the slice")
+
+
+_PLAIN_ADAPTORS = re.compile(r"(::iter$|::into_iter$|::cloned$|::copied$|::map(::<.*>)?$|::iter_mut$|Deref>::deref$|::as_slice$|::collect(::<.*>)?$|IntoIterator>::into_iter$|::values$|::keys$|::enumerate$|::by_ref$|from_iter|::buffer_unordered|stream::iter|::to_vec$|::as_ref$|Clone>::clone$)")
+
+
+@rule("C02.ALL-RESOURCES-COMPARED", ["C02", "C13"], """the recording and the comparison of command outputs run every declared command resource: the per-command futures are built from the
+      `cmds` parameter through plain iteration only (no de-duplication, filtering or truncation in between)""", "K5", floor=2)
+def all_resources_compared(ctx):
+    f = ctx.f
+    runners = cmd_state_bodies(ctx)
+    scope_fns = {ctx.r.outer_fn(b).name for b in f.user_bodies() if any(a.callee in runners for a in awaits(b))} - runners
+    n = 0
+    for fn in sorted(scope_fns):
+        b = f.coroutine_of(fn)
+        if b is None:
+            continue
+        # the iterator handed to try_join_all / all / join_all
+        for bb, t in b.calls():
+            if re.search(r"future::try_join_all|future::join_all|async_utils::all$", callee_base(t)) or (callee_base(t) in f.bodies and f.bodies[callee_base(t)].ret.startswith("impl futures::Future<Output = bool>")):
+                if not t["args"]:
+                    continue
+                n += 1
+                at = b.prov.operand_atoms(t["args"][0], interproc=False)
+                from_param = any(a[0] == "field" and a[1].startswith("{env of") and "cmds" in a[2] for a in at)
+                odd = sorted(c for c in atom_callres(at) if not _PLAIN_ADAPTORS.search(c) and c not in runners)
+                ctx.check(from_param and not odd, f"{short(fn)}/over-all-cmds", [site(b, bb)],
+                          ("the per-command futures are not built from the `cmds` parameter" if not from_param else f"the declared commands pass through {odd} before being run: some command resource may never be run or compared"))
+    ctx.need(n >= 2, "recording and comparison of the command outputs")
